@@ -645,3 +645,23 @@ func C16_StringRoundTrip() {
 		}
 	}
 }
+
+var _ = reg("C16_DecimalFinite", C16_DecimalFinite)
+
+// C16_DecimalFinite: .decimal(p,s) never returns a value outside the finite
+// doubles, whatever finite double it is applied to: scales at both ends of
+// the float64 exponent range, where scaling or the carry of the rounding can
+// overflow. The value is an unconstrained symbolic double.
+func C16_DecimalFinite() {
+	ss := []int{-308, -307, -300, -1, 0, 2, 300, 308, 323, -323, 1000, -1000}
+	s := ss[nd.Choice(len(ss))]
+	x := nd.FiniteFloat64()
+	r, err := parse("$v.decimal(1000,"+itoa(s)+")").Query(bg, nil, exec.WithVars(exec.Vars{"v": x}))
+	tag := "C16/decimal/finite"
+	if err != nil {
+		nd.Assert(isVerbose(err), tag+"/error-class")
+		return
+	}
+	v, ok := r[0].(float64)
+	nd.Assert(ok && finite(v), tag+"/non-finite-result")
+}
